@@ -742,7 +742,9 @@ func oneTimeout(cd *CheckDef) time.Duration {
 func runningModelFrame(dump string) string {
 	for _, blk := range strings.Split(dump, "\n\n") {
 		hdr := firstLine(strings.TrimSpace(blk))
-		if !strings.HasPrefix(hdr, "goroutine ") || !(strings.Contains(hdr, "[running") || strings.Contains(hdr, "[runnable")) {
+		// running or runnable inside the model, or asleep inside it (time.Sleep in a retry / back-off loop that has outlived
+		// the time limit by orders of magnitude; the shipped model never sleeps)
+		if !strings.HasPrefix(hdr, "goroutine ") || !(strings.Contains(hdr, "[running") || strings.Contains(hdr, "[runnable") || strings.Contains(hdr, "[sleep")) {
 			continue
 		}
 		for _, l := range strings.Split(blk, "\n") {
